@@ -54,6 +54,13 @@ class C05(SessionCheck):
                 out.append({'kind': 'connect', 'sc': {'transport': tr, 'profile': pf, 'extras': extras, 'server11': (i % 3 != 1)}})
         # arrival timing of the server's <hello> over a real SSH transport: never sent, sent in pieces that complete well inside the
         # timeout, and dripped for ever without its end (connect must fail within the timeout, not hang)
+        # the <hello> document itself, for every profile: HelloHandler.build vs the model's serialize (helloTree), read back by an
+        # independent parser; capability lists = the profile's own list with nasty extras spliced in
+        nasty = ['urn:x?a=1&b=<2>', 'http://example.com/yang?module=m&revision=2020-01-01&features=a,b', 'urn:q?"quoted"=\'s\'', 'ünï:cap:★', 'urn:x:]]>',
+                 'a', 'urn:with space', 'urn:tab\there', 'urn:nl\nline']
+        for i, pf in enumerate(profs):
+            for rep in range(2):
+                out.append({'kind': 'hello-doc', 'profile': pf, 'extras': rng.sample(nasty, rng.randint(0, 4))})
         for what in ('silent', 'slow-complete', 'drip'):
             out.append({'kind': 'hello-timing', 'sc': {'transport': 'ssh', 'profile': 'default', 'what': what, 'timeout': 1.2}})
         return out
@@ -107,7 +114,22 @@ class C05(SessionCheck):
             srv.cleanup()
         return res
 
+    def run_hello_doc(self, case):
+        from ncclient import manager
+        from ncclient.transport.session import HelloHandler
+        dh = manager.make_device_handler({'name': case['profile']})
+        dh.add_additional_netconf_params({'capabilities': list(case['extras'])})
+        caps = list(dh.get_capabilities())
+        xml = HelloHandler.build(caps, dh)
+        body = xml[xml.index('?>') + 2:] if xml.startswith('<?xml') else xml
+        root = ET.fromstring(xml.encode('utf-8'))
+        read = [c.text or '' for c in root.iter() if c.tag.endswith('}capability') or c.tag == 'capability']
+        case['_caps'], case['_pfx'] = caps, ('nc:' if body.startswith('<nc:') else '')      # inputs of the model line for this case
+        return {'caps': caps, 'ser': body, 'read': read, 'root': root.tag}
+
     def run_impl(self, case):
+        if case.get('kind') == 'hello-doc':
+            return self.run_hello_doc(case)
         if case.get('kind') == 'hello-timing':
             self.stats['hello_timing'] = self.stats.get('hello_timing', 0) + 1
             return self.run_hello_timing(case)
@@ -149,22 +171,39 @@ class C05(SessionCheck):
         return res
 
     def model_lines(self, case):
+        if case.get('kind') == 'hello-doc':
+            from core import hexs, hlist
+            if '_caps' not in case or any(c == '' for c in case['_caps']):
+                return []
+            return ['xd hello %s %s' % (hexs(case['_pfx']), hlist(hexs(c) for c in case['_caps']))]
         if case.get('kind') in ('connect', 'hello-timing'):
             return []
         return SessionCheck.model_lines(self, case)
 
     def model_obs(self, case, outs):
+        if case.get('kind') == 'hello-doc':
+            t = outs[0].split(' ')
+            from core import unhlist
+            return {'ser': unhexs(t[0]), 'read': None if t[1] == 'none' else [None if x == '-' else unhexs(x) for x in unhlist(t[1])]}
         if case.get('kind') in ('connect', 'hello-timing'):
             return None
         return SessionCheck.model_obs(self, case, outs)
 
     def compare(self, case, io, mo):
+        if case.get('kind') == 'hello-doc':
+            if mo is None:
+                return None
+            if io['ser'] != mo['ser']:
+                return '<hello> differs: HelloHandler.build %r, model %r' % (io['ser'][:300], mo['ser'][:300])
+            if io['read'] != mo['read']:
+                return 'capabilities read back differ: expat %r, model %r' % (io['read'], mo['read'])
+            return None
         if case.get('kind') in ('connect', 'hello-timing'):
             return None
         return SessionCheck.compare(self, case, io, mo)
 
     def nontrivial(self, case, io):
-        if case.get('kind') == 'hello-timing':
+        if case.get('kind') in ('hello-timing', 'hello-doc'):
             return True
         if case.get('kind') == 'connect':
             return io.get('connect') == 'ok'
@@ -205,6 +244,15 @@ class C05(SessionCheck):
         return None
 
     def oracle(self, case, io):
+        if case.get('kind') == 'hello-doc':
+            if io['root'] not in ('{%s}hello' % BASE_NS,):
+                return ('C05:first-frame-not-hello', 'HelloHandler.build made <%s>' % io['root'])
+            if io['read'] != io['caps']:
+                return ('C05:hello-capabilities', '%s: an independent parser reads %r out of the <hello>, the profile reports %r' % (case['profile'], io['read'], io['caps']))
+            prof = next((p for p in getattr(self, '_profiles', []) if p['name'] == case['profile']), None)
+            if (prof is None or prof['uses']) and not all(x in io['caps'] for x in case['extras']):
+                return ('C05:user-capabilities', '%s: user additions %r missing from %r' % (case['profile'], case['extras'], io['caps']))
+            return None
         if case.get('kind') == 'hello-timing':
             sc = case['sc']
             if sc['what'] == 'slow-complete':
